@@ -15,6 +15,7 @@ def dispatch (focus : String) (c : Case) : String :=
   | "sepmodel" => handleSepModel c
   | "state" => handleState focus c
   | "fit" => handleFit focus c
+  | "fault" => handleFault focus c
   | k => s!"corr=INTERNAL(unknown-kind-{k}) mon=ok nontrivial=0 tag=none"
 
 partial def loop (focus : String) (h : IO.FS.Stream) (cur : Option Case) : IO Unit := do
